@@ -37,6 +37,8 @@ SUBJECTS = {
     "F12": "do not re-arm the keep-alive timer once the peer has stopped sending",
     "F26": "a WebSocket denial response start is validated at once",
     "F13": "trio closes a connection only after the writes in progress have gone out",
+    "F44": "the asyncio worker always passes the peer's EOF on to the protocol",
+    "F45": "deliver no WebSocket message after websocket.disconnect",
     "F34": "a failed lifespan startup is only reported once",
     "F35": "a lifespan failure the application swallowed",
     "F36": "worker_serve returns when the lifespan app is still waiting",
